@@ -15,6 +15,10 @@ add("C12", E1,
     "Runtime monitor: the real RpkiTable is driven with every single-VRP table x route x origin of three 5-bit sub-spaces (complete), sampled VRP pairs, random VRP sets over the real address space and insert/remove/drop/reset histories; each result is compared with a brute-force RFC 6811 oracle. Held on the executions listed in the evidence, nothing more.",
     "Trusted: the 20-line brute-force covering/validity oracle; clean host bits in VRPs; AS_SET-tail origin accepted as NONE or local AS.",
     "runtime monitoring: reference-model oracle over generated inputs and histories (debug+release, Miri slice)")
+add("C05", E1,
+    "Runtime monitor (packet level): valid UPDATE templates (legacy + MP families, eBGP/iBGP/confed, 2-/4-octet AS, ADD-PATH) are corrupted by a recording RFC 7606 fault engine (flags, length, value, duplication, omission, unknown well-known, truncation, iBGP-only attributes on eBGP, MP faults; up to 4 faults per UPDATE) and pushed through the real try_parse + validate_message; an oracle computed from the fault record and an independent TLV walk decides never-installs / treat-as-withdraw / discard / withdrawals-survive / reset-only-if-must / ebgp-filter / no-panic. Debug+release; Miri slice in thorough.",
+    "Trusted: the fault classification (Benign/Discardable/MustWithdraw) written from the statement + RFC 7606; where RFC 7606 leaves a choice every permitted outcome is accepted (listed in the evidence assumptions). The end-to-end RIB half is not part of this check yet.",
+    "runtime monitoring: fault-injection workload + reference classifier oracle over decoder output")
 add("C18", E2,
     "Runtime monitor on real threads: writer sessions (insert/remove/peer drop+re-up), a controller toggling import policy + soft_reset_in, and subscribers that subscribe/unsubscribe at random points run against the real TableManager with delay injection at the hook points between critical sections; after quiescence each subscription's folded event stream must equal iter_reach / iter_reach_post. Thorough adds ThreadSanitizer and Miri (different schedules per -Zmiri-seed). Schedules are sampled, not enumerated.",
     "Trusted: the fold (insert on reach, remove on withdraw, PeerDown clears the peer) and the ground truth read through the table's own iterators; GR stale retention not in scope.",
